@@ -138,6 +138,7 @@ func runC02(c *Ctx, r *Report) {
 
 	// ---- R4 ---------------------------------------------------------------------------------------------
 	c02FieldTargets(c, r)
+	c03MessageFlows(c, r) // every record starts from a fresh all-invalid message of its own number
 	// ---- R5 ---------------------------------------------------------------------------------------------
 	c02SkipBySize(c, r)
 	// ---- R6 ---------------------------------------------------------------------------------------------
